@@ -9,6 +9,7 @@ package interp
 
 import (
 	"fmt"
+	"golang.org/x/tools/go/ssa"
 	"sort"
 	"strings"
 )
@@ -119,6 +120,7 @@ type cacheVal struct {
 }
 
 type Explorer struct {
+	blocks  map[*ssa.BasicBlock]bool // basic blocks executed by this worker (coverage report)
 	solver  *Solver
 	solver2 *Solver // started lazily: consulted when the primary answers unknown
 	budgets Budgets
@@ -153,7 +155,7 @@ type Explorer struct {
 }
 
 func newExplorer(s *Solver, b Budgets) *Explorer {
-	return &Explorer{solver: s, budgets: b, cache: map[cacheKey]cacheVal{}}
+	return &Explorer{solver: s, budgets: b, cache: map[cacheKey]cacheVal{}, blocks: map[*ssa.BasicBlock]bool{}}
 }
 
 func (e *Explorer) reset(item WorkItem) {
